@@ -14,6 +14,8 @@ sm table   <ConnSM|CommSM|CtrlSM>
 sm reftable <ConnSM|CommSM|CtrlSM>                                   the reference definition (Spec.Machines), same format as `table`
 sm ref     <ConnSM|CommSM> R=<requests>                              reference definition interpreted by the engine model, from its initial state;
 sm ref     CtrlSM <initial_control_state> <LOCAL|REMOTE> R=<requests>  … with the generated forwarders; answer by NAME:
+           (both forms take an optional H=<handlers> before R=: callbacks the harness registered in addition)
+           a request named `!` in a handler entry stands for a callback that raises a plain exception (an unknown transition for the model)
            ok cur=<NAME> active=<NAME+NAME…> log=<l.NAME,e.NAME,c.transition,…> res=<r,r,…>
 
 parents     := p,p,…          p = index of the parent or `-`
@@ -156,6 +158,13 @@ def handle : List String → String
       let t := rm.toTable
       runReqsNamed t (ofTable t) noHandlers (initOf t) (splitList "," rs) 0 []
     | _, _ => "bad-op"
+  | ["ref", name, h, r] =>
+    -- additional callbacks (same syntax as `run`, state indices of the reference definition) registered by the harness
+    match refOf name, kv "H" h >>= parseHandlers, kv "R" r with
+    | some rm, some hs, some rs =>
+      let t := rm.toTable
+      runReqsNamed t (ofTable t) (mkHandlers hs) (initOf t) (splitList "," rs) 0 []
+    | _, _, _ => "bad-op"
   | ["ref", "CtrlSM", initial, sub, r] =>
     match kv "R" r with
     | some rs =>
@@ -163,6 +172,15 @@ def handle : List String → String
       let c : Model.Gem.Ctrl.CState := { cur := 0, flags := [], remote := sub == "REMOTE", initial := initial }
       runReqsNamed t (ofTable t) (Model.Gem.Ctrl.handlers c none) (initOf t) (splitList "," rs) 0 []
     | none => "bad-op"
+  | ["ref", "CtrlSM", initial, sub, h, r] =>
+    -- the constructor's own callbacks first, then the harness's (registration order)
+    match kv "H" h >>= parseHandlers, kv "R" r with
+    | some hs, some rs =>
+      let t := Spec.Machines.ctrl.toTable
+      let c : Model.Gem.Ctrl.CState := { cur := 0, flags := [], remote := sub == "REMOTE", initial := initial }
+      let hh : Handlers := fun ev => Model.Gem.Ctrl.handlers c none ev ++ mkHandlers hs ev
+      runReqsNamed t (ofTable t) hh (initOf t) (splitList "," rs) 0 []
+    | _, _ => "bad-op"
   | ["run", p, t, h, i, r] =>
     match kv "P" p >>= parseParents, kv "T" t >>= parseTrans, kv "H" h >>= parseHandlers, kv "I" i >>= String.toNat?, kv "R" r with
     | some ps, some ts, some hs, some c, some rs =>
